@@ -895,6 +895,17 @@ func (fr *frame) lookupName(name string, at *ssa.BasicBlock, inclusive bool, phi
 		}
 		return val, true
 	}
+	// a parameter evaluated in the entry state (old(...)): its value at the call, also when the
+	// parameter lives in a cell (address taken / captured) that is only initialised by the body
+	if fr.entry != nil && st == fr.entry {
+		for _, p := range fr.fn.Params {
+			if p.Name() == name {
+				if v, ok := fr.vals[p]; ok {
+					return v, true
+				}
+			}
+		}
+	}
 	// captured variables of a closure live in the enclosing function's cell: read the cell in the
 	// requested state (value bindings would ignore old())
 	for i, fv := range fr.fn.FreeVars {
